@@ -581,6 +581,14 @@ func (c *CaseC01) evalCLI(ob *Obs, m *refModel) []Finding {
 		w := stdWorld(render(c.Book, c.Layout), "")
 		w.Order = OrderPlan{Mode: mode, Seed: c.Seeds[0]}
 		w.Argv = []string{"hranoprovod-cli", "--maxdepth", strconv.Itoa(c.MaxDepth), "csv", "database-resolved"}
+		switch mode { // the limit reaches the program by flag, by environment or by configuration file
+		case "desc":
+			w.Env = map[string]string{"HR_MAXDEPTH": strconv.Itoa(c.MaxDepth)}
+			w.Argv = []string{"hranoprovod-cli", "csv", "database-resolved"}
+		case "shuffle":
+			w.Files = append(w.Files, FileSpec{Path: w.Home + "/.hranoprovod/config", Kind: "file", Data: "[Resolver]\nMaxDepth=" + strconv.Itoa(c.MaxDepth) + "\n", Plan: ReadPlan{FaultAt: -1}})
+			w.Argv = []string{"hranoprovod-cli", "csv", "database-resolved"}
+		}
 		r := ob.run(w)
 		if r.Failed {
 			return append(out, Finding{"C01 cli-resolve-fails", fmt.Sprintf("order %s: csv database-resolved failed: %s %s", mode, r.Err, r.Panic)})
